@@ -6,8 +6,10 @@
    lower-casing and trimming, bool combinations) over /repo/flows/contact.go QueryProperty and
    flows/field.go QueryValue, for conditions whose value needs no number/date parsing:
      name = "x" | name != "" | language = "x" | language != "" | <scheme> != "" | <scheme> = ""
-     | last_seen_on != "" | last_seen_on = "" | tickets > 0 | tickets = 0
+     | last_seen_on != "" | last_seen_on = "" | last_seen_on <comparison> <date> | tickets > 0 | tickets = 0
      | <text field> = "x" | <field> != "" | <field> = "" | AND | OR
+   ([QLastSeenCmp k]: the k-th date comparison the harness knows; whether an instant satisfies it is a table filled from
+   the real evaluator per instant, so that a group over it can be evaluated on every contact state of a sprint)
    plus [QConst b] for queries outside the fragment, whose result on the one contact they are evaluated on
    is taken from the real evaluator (only used where a case evaluates each group on a single contact).
 
@@ -22,7 +24,7 @@ Inductive query :=
 | QNameIs (t : text) | QNameSet
 | QLangIs (l : N) | QLangSet
 | QHasScheme (s : N) | QNoScheme (s : N)
-| QLastSeenSet | QLastSeenUnset
+| QLastSeenSet | QLastSeenUnset | QLastSeenCmp (k : N)
 | QHasTicket | QNoTicket
 | QFieldTextIs (f : N) (t : text)
 | QFieldSet (f : N) | QFieldUnset (f : N)
@@ -55,7 +57,7 @@ Definition field_has_query_value (ft : ftype) (v : option fvalue) : bool :=
               end
   end.
 
-Fixpoint qeval (scheme_of : N -> N) (ftypes : list ftype) (q : query) (c : contact) : bool :=
+Fixpoint qeval (scheme_of : N -> N) (ftypes : list ftype) (seen_cmp : N -> N -> bool) (q : query) (c : contact) : bool :=
   match q with
   | QNameIs t => match c_name c with [] => false | n => text_eqb (fold_text n) (fold_text t) end
   | QNameSet => negb (text_eqb (c_name c) [])
@@ -65,6 +67,7 @@ Fixpoint qeval (scheme_of : N -> N) (ftypes : list ftype) (q : query) (c : conta
   | QNoScheme s => negb (existsb (fun u => N.eqb (scheme_of (cu_urn u)) s) (c_urns c))
   | QLastSeenSet => match c_last_seen c with Some _ => true | None => false end
   | QLastSeenUnset => match c_last_seen c with Some _ => false | None => true end
+  | QLastSeenCmp k => match c_last_seen c with Some t => seen_cmp k t | None => false end
   | QHasTicket => match c_ticket c with Some _ => true | None => false end
   | QNoTicket => match c_ticket c with Some _ => false | None => true end
   | QFieldTextIs f t => match fget f (c_fields c) with
@@ -73,7 +76,7 @@ Fixpoint qeval (scheme_of : N -> N) (ftypes : list ftype) (q : query) (c : conta
                         end
   | QFieldSet f => field_has_query_value (nth (N.to_nat f) ftypes FText) (fget f (c_fields c))
   | QFieldUnset f => negb (field_has_query_value (nth (N.to_nat f) ftypes FText) (fget f (c_fields c)))
-  | QAnd a b => qeval scheme_of ftypes a c && qeval scheme_of ftypes b c
-  | QOr a b => qeval scheme_of ftypes a c || qeval scheme_of ftypes b c
+  | QAnd a b => qeval scheme_of ftypes seen_cmp a c && qeval scheme_of ftypes seen_cmp b c
+  | QOr a b => qeval scheme_of ftypes seen_cmp a c || qeval scheme_of ftypes seen_cmp b c
   | QConst b => b
   end.
